@@ -5,6 +5,7 @@ import TinsModel.Wire.Transport.ThTcpWrite
   RFC 793 / RFC 8200 over the RFC pseudo header built from the parent's addresses (header, options of any kinds, padding
   and payload covered), no checksum is written without an IP / IPv6 parent, and data offset · 4 is the header size.
 -/
+set_option autoImplicit false
 namespace Tins.Wire.Derived
 open Tins Tins.Wire Tins.Wire.Transport
 
